@@ -145,7 +145,10 @@ pub fn run_case(c: &WCase) -> Outcome {
         }
     }
     // independent second monitor: live heap bytes allocated inside ggrs calls must not grow steadily
-    if alloc::is_enabled() && samples.len() >= 4 {
+    if alloc::overflowed() {
+        out.count("heap_monitor_table_overflows", 1);
+    }
+    if alloc::is_enabled() && !alloc::overflowed() && samples.len() >= 4 {
         out.count("heap_samples", samples.len() as u64);
         out.count("max_live_bytes_allocated_by_ggrs", samples.iter().map(|x| x.1).max().unwrap_or(0).max(0) as u64);
         let n = samples.len() as f64;
